@@ -141,6 +141,9 @@ def run_case(cs):
             points.append((k, "half", kind, path))
         if rng.random() < 0.25:
             points.append((k, "sigint", kind, path))  # interrupted by Ctrl-C at this point instead of killed
+        if kind in ("rename", "mkdir", "close", "remove") and rng.random() < 0.5:
+            # Ctrl-C while this operation runs: it completes, then the interpreter raises inside the caller's try blocks
+            points.append((k, "sigint_after", kind, path))
     cap = 90 if cs.tier == "quick" else 10**6
     if prior >= 32:
         cap = 24 if cs.tier == "quick" else 200  # every point costs a copy of the long history and five commands on it
